@@ -290,6 +290,105 @@ def pool_targets():
     return out
 
 
+def bounds_clip_targets():
+    """zepid.calc.utils.probability_bounds: the dispatch on type(bounds), the rejection tests of each branch and the masked
+    assignments `v[v < x] = y`, per element.  Emitted over Q with option (None = ValueError)."""
+    fn = find_function(ast.parse(open(CALC).read()), 'probability_bounds')
+    if [a.arg for a in fn.args.args] != ['v', 'bounds']:
+        raise TranslateError('probability_bounds signature changed')
+
+    class Sub(ast.NodeTransformer):
+        def visit_Subscript(self, n):
+            if isinstance(n.value, ast.Name) and n.value.id == 'bounds' and isinstance(n.slice, ast.Constant) and n.slice.value in (0, 1):
+                return ast.copy_location(ast.Name(id='lo' if n.slice.value == 0 else 'hi', ctx=ast.Load()), n)
+            return self.generic_visit(n)
+
+    def arith(e, names):
+        tr = FnTranslator('pb', list(names))
+        return emit(tr.expr(Sub().visit(ast.parse(ast.unparse(e), mode='eval').body)), 'Q')
+
+    def boolean(t, names):
+        if isinstance(t, ast.BoolOp):
+            op = ' || ' if isinstance(t.op, ast.Or) else ' && '
+            return '(' + op.join(boolean(v, names) for v in t.values) + ')'
+        if isinstance(t, ast.Compare) and len(t.ops) == 1:
+            a, b = arith(t.left, names), arith(t.comparators[0], names)
+            if isinstance(t.ops[0], ast.Lt):
+                return 'Qlt_bool %s %s' % (a, b)
+            if isinstance(t.ops[0], ast.Gt):
+                return 'Qlt_bool %s %s' % (b, a)
+            if isinstance(t.ops[0], ast.LtE):
+                return 'Qle_bool %s %s' % (a, b)
+            if isinstance(t.ops[0], ast.GtE):
+                return 'Qle_bool %s %s' % (b, a)
+        raise TranslateError('boolean test %s in probability_bounds' % ast.unparse(t))
+
+    def is_type_test(t, what):
+        return ast.unparse(t) == 'type(bounds) is %s' % what
+
+    def branch(body, names):
+        """-> (list of rejection conditions in order, let-chain text for one element, rejects-str flag)"""
+        rejects, lets, strtest = [], [], False
+        for st in body:
+            if isinstance(st, ast.If) and len(st.body) == 1 and isinstance(st.body[0], ast.Raise) and not st.orelse:
+                if 'is str' in ast.unparse(st.test):
+                    if ast.unparse(st.test) != 'type(bounds[0]) is str or type(bounds[1]) is str':
+                        raise TranslateError('string test %s' % ast.unparse(st.test))
+                    strtest = True
+                    continue
+                if lets:
+                    raise TranslateError('a rejection test after an assignment in probability_bounds')
+                rejects.append(boolean(st.test, names))
+            elif isinstance(st, ast.If) and ast.unparse(st.test) == 'len(bounds) > 2' and all(
+                    isinstance(b, ast.Expr) and ast.unparse(b.value.func) == 'warnings.warn' for b in st.body) and not st.orelse:
+                continue
+            elif (isinstance(st, ast.Assign) and len(st.targets) == 1 and isinstance(st.targets[0], ast.Subscript)
+                  and isinstance(st.targets[0].value, ast.Name) and st.targets[0].value.id == 'v'
+                  and isinstance(st.targets[0].slice, ast.Compare)):
+                c = st.targets[0].slice
+                if not (isinstance(c.left, ast.Name) and c.left.id == 'v'):
+                    raise TranslateError('mask %s' % ast.unparse(c))
+                lets.append('let v_v := if %s then %s else v_v in' % (boolean(c, names), arith(st.value, names)))
+            else:
+                raise TranslateError('statement `%s` in probability_bounds' % ast.unparse(st)[:60])
+        return rejects, lets, strtest
+
+    if not (isinstance(fn.body[1], ast.Assign) and ast.unparse(fn.body[1]) == 'v = np.array(v)'):
+        raise TranslateError('probability_bounds no longer starts by copying v with np.array')
+    chain = fn.body[2]
+    if not (isinstance(chain, ast.If) and is_type_test(chain.test, 'float')):
+        raise TranslateError('probability_bounds: first branch is not `type(bounds) is float`')
+    fl_body = chain.body
+    rest = chain.orelse
+    kinds = {}
+    while len(rest) == 1 and isinstance(rest[0], ast.If) and ast.unparse(rest[0].test).startswith('type(bounds) is '):
+        what = ast.unparse(rest[0].test).split(' is ')[1]
+        kinds[what] = rest[0].body
+        rest = rest[0].orelse
+    for what in ('str', 'int'):
+        if what not in kinds or not (len(kinds[what]) == 1 and isinstance(kinds[what][0], ast.Raise)):
+            raise TranslateError('probability_bounds: the %s branch is not a bare raise' % what)
+    if set(kinds) != {'str', 'int'}:
+        raise TranslateError('probability_bounds branches: %r' % sorted(kinds))
+    pair_body = rest
+    if not (isinstance(fn.body[-1], ast.Return) and ast.unparse(fn.body[-1].value) == 'v'):
+        raise TranslateError('probability_bounds no longer returns v')
+    r1, l1, _ = branch(fl_body, ['v', 'bounds'])
+    r2, l2, strtest = branch(pair_body, ['v', 'lo', 'hi'])
+    if not strtest:
+        raise TranslateError('probability_bounds: the pair branch no longer rejects strings')
+
+    def body(rej, lets):
+        t = 'Some (%s v_v)' % ' '.join(lets)
+        for c in reversed(rej):
+            t = 'if %s then None else %s' % (c, t)
+        return t
+    txt = ('(* per element; None = ValueError.  str and int bounds: bare `raise ValueError` branches (checked by the translator) *)\n'
+           'Definition pb_float_Q (v_bounds v_v : Q) : option Q :=\n  %s.\n'
+           'Definition pb_pair_Q (v_lo v_hi v_v : Q) : option Q :=\n  %s.' % (body(r1, l1), body(r2, l2)))
+    return [RawTarget('probability_bounds', txt, ['bounds', 'v'], ['clipped'])]
+
+
 GROUPS = {
     'tmle': tmle_targets,
     'calc': calc_targets,
@@ -298,6 +397,7 @@ GROUPS = {
     'aipw': aipw_targets,
     'ic': ic_targets,
     'pool': pool_targets,
+    'pbounds': bounds_clip_targets,
 }
 
 
